@@ -48,6 +48,10 @@ pub trait Kind: 'static {
     }
     /// payload counts its own `Clone::clone` calls and stamps a generation (kinds without drop glue)
     const COUNTS_CLONES: bool = false;
+    /// clones carry a generation stamp one above their source (`kgen` / `vgen`)
+    const STAMPS_GEN: bool = false;
+    /// how many of (key, value) are counted by `clone_calls` per cloned entry
+    const CLONES_PER_ENTRY: u64 = 2;
     fn clone_calls() -> u64 {
         0
     }
@@ -171,8 +175,10 @@ impl Kind for Plain {
 /// Heap-owning payload with the classic distinct borrowed form `str`.
 pub struct Str;
 fn skey(raw: u8) -> String {
-    // keys of different length and content; never empty
-    format!("key-{raw}{}", "x".repeat((raw % 3) as usize))
+    // keys of different length and content; never empty; every fifth key is longer than any
+    // plausible internal staging buffer (a single Display / Debug piece of 70+ bytes)
+    let pad = if raw % 5 == 4 { 70 + (raw % 7) as usize } else { (raw % 3) as usize };
+    format!("key-{raw}{}", "x".repeat(pad))
 }
 impl Kind for Str {
     type K = String;
@@ -287,8 +293,24 @@ impl Kind for Large {
 }
 
 /// Zero-sized key: a map can hold at most one distinct key.
-#[derive(Clone, Copy, PartialEq, Eq, Debug, Default)]
+thread_local! {
+    static ZST_CLONES: std::cell::Cell<u64> = const { std::cell::Cell::new(0) };
+}
+fn zst_cloned() {
+    ZST_CLONES.with(|c| c.set(c.get() + 1));
+}
+/// zero-sized, `Copy`, with a hand-written `Clone` that is counted (a "nothing to copy"
+/// shortcut for zero-sized pairs that skips `Clone::clone` is visible)
+#[derive(PartialEq, Eq, Debug, Default)]
 pub struct Unit;
+impl Clone for Unit {
+    #[allow(clippy::non_canonical_clone_impl)]
+    fn clone(&self) -> Unit {
+        zst_cloned();
+        Unit
+    }
+}
+impl Copy for Unit {}
 impl fmt::Display for Unit {
     fn fmt(&self, f: &mut fmt::Formatter<'_>) -> fmt::Result {
         write!(f, "U")
@@ -304,6 +326,11 @@ impl Kind for ZstKey {
     const TRACKED: bool = false;
     const NOALLOC: bool = true;
     const MAX_UNIV: u8 = 1;
+    const COUNTS_CLONES: bool = true;
+    const CLONES_PER_ENTRY: u64 = 1;
+    fn clone_calls() -> u64 {
+        ZST_CLONES.with(|c| c.get())
+    }
     fn key(_: u8) -> Unit {
         Unit
     }
@@ -344,8 +371,16 @@ impl Kind for ZstKey {
 
 /// Zero-sized *value* with a tracked key (what `Set<TK, N>` stores) is covered by the set
 /// engines; this kind gives maps with a ZST value and plain keys.
-#[derive(Clone, Copy, PartialEq, Eq, Debug, Default)]
+#[derive(PartialEq, Eq, Debug, Default)]
 pub struct Nil;
+impl Clone for Nil {
+    #[allow(clippy::non_canonical_clone_impl)]
+    fn clone(&self) -> Nil {
+        zst_cloned();
+        Nil
+    }
+}
+impl Copy for Nil {}
 impl fmt::Display for Nil {
     fn fmt(&self, f: &mut fmt::Formatter<'_>) -> fmt::Result {
         write!(f, "nil")
@@ -486,6 +521,7 @@ impl Kind for NoDrop {
     const TRACKED: bool = false;
     const NOALLOC: bool = true;
     const COUNTS_CLONES: bool = true;
+    const STAMPS_GEN: bool = true;
     fn clone_calls() -> u64 {
         ND_CLONES.with(|c| c.get())
     }
@@ -551,6 +587,10 @@ impl Kind for ZstBoth {
     const TRACKED: bool = false;
     const NOALLOC: bool = true;
     const MAX_UNIV: u8 = 1;
+    const COUNTS_CLONES: bool = true;
+    fn clone_calls() -> u64 {
+        ZST_CLONES.with(|c| c.get())
+    }
     fn key(_: u8) -> Unit {
         Unit
     }
